@@ -256,6 +256,20 @@ def enum_cases(maxlen):
 WIDE = ("abAB019zZ:#-.,;=+~ \t\r\x0b\x0c\x1c\x1d\x1e\x1f\x85\u00a0\u1680\u2000\u2028\u2029\u3000"
         "\u0301\u00e9\u00df\u6f22\U0001d4b3\x00\x7f\ufeff")
 wide_text = st.text(alphabet=st.sampled_from(WIDE), max_size=8)
+
+
+def exotic_lines():
+    """Every character of the wide alphabet as a line of its own, as the head and as the tail of
+    a line, in every termination mode and at the first / last position of a short document."""
+    for c in WIDE:
+        for b in (False, True):
+            for body_ in (c, c + "x", "x" + c, c + ":" + c, c + c):
+                yield {"mode": "lastopen", "lines": [body_], "bytes": b}
+                yield {"mode": "term", "lines": [body_], "bytes": b}
+                yield {"mode": "none", "lines": [body_, "A: b"], "bytes": b}
+                yield {"mode": "none", "lines": ["A: b", body_], "bytes": b}
+                yield {"mode": "lastopen", "lines": ["A: b", body_], "bytes": b}
+                yield {"mode": "term", "lines": [body_, " c", body_], "bytes": b}
 any_text = st.text(alphabet=st.characters(blacklist_characters="\n", blacklist_categories=("Cs",)), max_size=10)
 name = st.sampled_from(["A", "a", "Ab", "X-y", "!", "Foo", "B"])
 wellformed = st.one_of(
@@ -331,8 +345,10 @@ def sources(tier):
     if tier == "quick":
         return [Enum("big-documents", big_docs, "7 blocks x repeats 1/400/2500(/12000) x 3 modes x str/bytes"),
                 Enum("line-classes<=3", enum_cases(3), EXHAUSTIVE["quick"]),
+                Enum("exotic-single-lines", exotic_lines, "each of the %d wide-alphabet characters x 5 line shapes x 6 placements x str/bytes" % len(WIDE)),
                 Hyp("unicode-lines", gen_case(), 1500, shards=8)]
     return [Enum("big-documents", big_docs, "7 blocks x repeats 1/400/2500(/12000) x 3 modes x str/bytes"),
             Enum("line-classes<=4", enum_cases(4), EXHAUSTIVE["thorough"]),
+            Enum("exotic-single-lines", exotic_lines, "each of the %d wide-alphabet characters x 5 line shapes x 6 placements x str/bytes" % len(WIDE)),
             Hyp("unicode-lines", gen_case(), 20000, shards=16),
             Custom("atheris", fuzz_phase, shards=2)]
